@@ -51,8 +51,18 @@ func (t *c17DefTransport) RoundTrip(r *http.Request) (*http.Response, error) {
 	t.ct[id] = append([]string{}, r.Header["Content-Type"]...)
 	t.mu.Unlock()
 	resp, _ := json.Marshal(c17Todo{ID: id + 1000, Title: fmt.Sprintf("resp-%d", id)})
-	return &http.Response{StatusCode: 200, Header: http.Header{"Content-Type": []string{"application/json"}},
-		Body: io.NopCloser(bytes.NewReader(resp)), Request: r}, nil
+	// the body arrives a few bytes per Read although its length is declared: whoever reads it must read to the end
+	return &http.Response{StatusCode: 200, Header: http.Header{"Content-Type": []string{"application/json"}}, ContentLength: int64(len(resp)),
+		Body: io.NopCloser(&c17Dribble{r: bytes.NewReader(resp)}), Request: r}, nil
+}
+
+type c17Dribble struct{ r io.Reader }
+
+func (d *c17Dribble) Read(p []byte) (int, error) {
+	if len(p) > 5 {
+		p = p[:5]
+	}
+	return d.r.Read(p)
 }
 
 func c17Defaults(w *ndWriter) int {
